@@ -107,9 +107,9 @@ def apply_edit(tree, file, old, new):
     return True
 
 
-def run_variant(v, breaking):
+def run_variant(v, breaking, repo="/repo"):
     vid, file, old, new, exp = v
-    tree = make_copy()
+    tree = make_copy(repo)
     try:
         if not apply_edit(tree, file, old, new):
             return vid, "n/a", "anchor text not found exactly once in %s" % file
@@ -147,6 +147,22 @@ def run_variant(v, breaking):
         return vid, "ok" if ok else "FAIL", "; ".join(out)
     finally:
         shutil.rmtree(tree, ignore_errors=True)
+
+
+def run_for_property(prop, jobs=16, repo="/repo"):
+    """variants relevant to one property: breaking ones that expect `prop`, benign ones that list it (checked for `prop` only)"""
+    todo = []
+    for v in BREAK:
+        if isinstance(v[4], dict) and prop in v[4]:
+            todo.append(((v[0], v[1], v[2], v[3], {prop: v[4][prop]}), True))
+    for v in BENIGN:
+        if prop in v[4]:
+            todo.append(((v[0], v[1], v[2], v[3], [prop]), False))
+    if not todo:
+        return []
+    with ThreadPoolExecutor(max_workers=jobs) as ex:
+        res = list(ex.map(lambda vb: run_variant(vb[0], vb[1], repo), todo))
+    return [("breaking" if b else "benign",) + r for (v, b), r in zip(todo, res)]
 
 
 def main(argv):
